@@ -100,6 +100,9 @@ def cases(tier):
                 yield ("cvt", cmd, "float32", lo, min(np_, lo + blk * 4), tier)
     for cmd in SIG.FUZZY_PRODUCERS:
         yield ("reuse", cmd, tier)
+    for cmd in SIG.FUZZY_PRODUCERS:
+        if SIG.input_fuzz(cmd) != "fz":
+            yield ("dec32", cmd, tier)
 
 
 def _check_range(cmd, res, viols, tag):
@@ -183,6 +186,69 @@ def _cvt(case):
         if len(viols) > 40:
             viols = viols[:40]
     return {"evals": evals, "nontrivial": nontriv, "judged": judged, "viols": viols, "outcomes": outcomes, "sample": sample}
+
+
+T10 = [0.1, 0.3, 0.5, 0.6, 0.7]  # everyday decimals: none but 0.5 is a binary32 (or binary64) number
+
+
+def _presets10(cmd):
+    P = []
+    if cmd == "CvtToFuzzy":
+        for d in (None, "LowToHigh", "HighToLow"):
+            dd = {} if d is None else {"Direction": d}
+            for t in T10:
+                for f in T10:
+                    if t != f:
+                        P.append(dict(dd, TrueThreshold=t, FalseThreshold=f))
+    elif cmd == "CvtToBinary":
+        P = [{"Threshold": t, "Direction": d} for t in T10 for d in ("LowToHigh", "HighToLow")]
+    elif cmd == "CvtToFuzzyCurve":
+        for raw in itertools.chain(itertools.permutations(T10, 2), itertools.permutations(T10[:4], 3)):
+            for vals in ([-1, 1, -1], [1, -1, 1], [0.3, -0.7, 1]):
+                P.append({"RawValues": list(raw), "FuzzyValues": vals[:len(raw)]})
+    elif cmd == "CvtToFuzzyCat":
+        for raw in itertools.permutations(T10, 2):
+            P.append({"RawValues": list(raw), "FuzzyValues": [1, -1], "DefaultFuzzyValue": 0.3})
+    elif cmd in ("CvtToFuzzyZScore",):
+        P = [{}] + [{"TrueThresholdZScore": t, "FalseThresholdZScore": -t} for t in T10]
+    elif cmd == "CvtToFuzzyCurveZScore":
+        P = [{"ZScoreValues": [-t, t], "FuzzyValues": [-1, 1]} for t in T10]
+    elif cmd == "CvtToFuzzyMeanToMid":
+        P = [{"IgnoreZeros": iz, "FuzzyValues": v} for iz in (False, True) for v in ([-1, -0.5, 0, 0.5, 1], [1, 0.3, 0.1, -0.6, -1])]
+    return P
+
+
+def _dec32(case):
+    """single-precision data that are everyday decimals (0.1, 0.3, 0.55, ...) against thresholds / curve points that are the same decimals
+    in double precision: the data sit a rounding error beside the thresholds.  Every array of <=3 cells + two 5-cell arrays."""
+    _, cmd, tier = case
+    lat = [0.1, 0.3, 0.5, 0.55, 0.6, 0.7, M]
+    viols, outcomes = [], {}
+    evals = judged = 0
+    sample = None
+    arrays = [c for size in (1, 2, 3) for c in itertools.product(lat, repeat=size) if not all(x is None for x in c)]
+    arrays += [(0.5, 0.52, 0.55, 0.58, 0.59), (0.1, 0.3, 0.5, 0.6, 0.7)]
+    for params in _presets10(cmd):
+        for cells in arrays:
+            for dt in ("float32", "float"):
+                arr = D.mk_array(list(cells), dtype=dt)
+                res = D.execute(cmd, [arr], params)
+                evals += 1
+                tag = {"cmd": cmd, "params": params, "cells": [repr(c) for c in cells], "dtype": dt}
+                sample = tag
+                if res[0] == "err":
+                    k = "%s:err:%s" % (cmd, D.error_name(res[1]))
+                    outcomes[k] = outcomes.get(k, 0) + 1
+                    continue
+                judged += 1
+                ok = _check_range(cmd, res, viols, tag)
+                if not ok:
+                    viols[-1]["key"] += ":decimal-thresholds:" + dt
+                k = "%s:dec:%s" % (cmd, "in-range" if ok else "OUT")
+                outcomes[k] = outcomes.get(k, 0) + 1
+        if len(viols) > 30:
+            viols = viols[:30]
+    return {"evals": max(evals, 1), "nontrivial": judged, "judged": judged, "viols": viols, "outcomes": outcomes, "sample": sample}
 
 
 def _reuse(case):
@@ -290,4 +356,6 @@ def run(case):
     case = tuple(case)
     if case[0] == "reuse":
         return _reuse(case)
+    if case[0] == "dec32":
+        return _dec32(case)
     return _op(case) if case[0] in ("op", "op32") else _cvt(case)
